@@ -235,10 +235,26 @@ func (r *scopeRegistry) Subscope(parent *scope, prefix string, tags map[string]s
 	defer subscopeBucket.mu.Unlock()
 
 	if s, ok := r.lockedLookup(subscopeBucket, sanitizedKey); ok {
-		if _, ok = r.lockedLookup(subscopeBucket, unsanitizedKey); !ok {
-			subscopeBucket.s[unsanitizedKey] = s
+		if !s.closed.Load() || s.testScope {
+			if _, ok = r.lockedLookup(subscopeBucket, unsanitizedKey); !ok {
+				subscopeBucket.s[unsanitizedKey] = s
+			}
+			return s
 		}
-		return s
+
+		// n.b. The scope registered under the sanitized key was closed and is
+		//      only waiting to be dropped (it was not found above because it
+		//      was registered through a different spelling of the same tags):
+		//      report it, drop it and create a new (functional) scope below,
+		//      as for a closed scope found under the unsanitized key.
+		switch {
+		case parent.reporter != nil:
+			s.report(parent.reporter)
+		case parent.cachedReporter != nil:
+			s.cachedReport()
+		}
+		delete(subscopeBucket.s, sanitizedKey)
+		s.clearMetrics()
 	}
 
 	allTags := mergeRightTags(parent.tags, tags)
